@@ -124,6 +124,34 @@ def gen_scenario(r):
     return {"steps": out, "src": "gen-" + profile}
 
 
+def flood_scenarios(seed_):
+    """Floods that cross the implementation's own queue capacity (the harness reads cap(sub.ch) and publishes cap+extra
+    VAAs): a subscriber stops reading, cap+extra VAAs that match it are published (a few of them also match the
+    subscribers that keep reading), then: everything the readers are owed arrives, a new subscription and a removal
+    complete, and the overflowing subscriber either reads again (and sees what its policy kept for it, in order) or
+    its connection breaks."""
+    r = random.Random("spy-flood-%d" % seed_)
+    res = []
+    for variant in ("resume", "fail"):
+        a, b = r.sample([{"c": c, "a": x} for c in CHAINS for x in ADDRS], 2)
+        f1 = [] if variant == "resume" else [a]
+        steps = [{"ev": "Subscribe", "a": {"s": "s1", "f": f1}}, {"ev": "Subscribe", "a": {"s": "s2", "f": [b]}},
+                 {"ev": "Subscribe", "a": {"s": "s3", "f": [b, r.choice([{"c": 2, "a": "a9"}, {"c": 77, "a": "a1"}])]}},
+                 {"ev": "Publish", "a": {"v": {"id": "v1", "em": a}}}, {"ev": "Sync", "a": {}},
+                 {"ev": "Stall", "a": {"s": "s1"}},
+                 {"ev": "Flood", "a": {"em": a, "other": b, "extra": r.choice([3, 4, 6]), "every": r.choice([89, 97, 131])}},
+                 {"ev": "Sync", "a": {}},
+                 {"ev": "Subscribe", "a": {"s": "s4", "f": []}},
+                 {"ev": "Publish", "a": {"v": {"id": "v2", "em": a}}},
+                 {"ev": "Cancel", "a": {"s": "s2"}},
+                 {"ev": "Sync", "a": {}},
+                 {"ev": "Resume" if variant == "resume" else "Fail", "a": {"s": "s1"}},
+                 {"ev": "Publish", "a": {"v": {"id": "v3", "em": b}}},
+                 {"ev": "Publish", "a": {"v": {"id": "v4", "em": a}}}]
+        res.append({"steps": steps, "src": "flood-" + variant})
+    return res
+
+
 def gen_scenarios(seed_, n):
     rnd = random.Random("spy-gen-%d" % seed_)
     return [gen_scenario(rnd) for _ in range(n)]
@@ -153,11 +181,21 @@ def replay(work, scenarios, tag="spy", probes=4, deadline_ms=None):
     return lines, wall
 
 
-def validate(work, lines, tag="spy"):
+def validate(work, lines, tag="spy", flood_ids=()):
     """Trace_Spy over the recorded lines: first with the canonical schedule of silent steps, then the traces that were
-    not explained again with all interleavings.  Returns ({trace id: first unexplained line or None}, tlc result)."""
-    res, r = _validate(work, lines, "Trace_Spy.cfg")
-    redo = [t for t, bad in res.items() if bad is not None and bad["ev"] != "Timeout"]
+    not explained again with all interleavings.  Flood traces (thousands of messages in one queue) are validated in a
+    run of their own without the ExactDelivery invariant, whose evaluation is quadratic in the queue length; a trace
+    specification only takes specification actions, so acceptance itself establishes what the invariant states.
+    Returns ({trace id: first unexplained line or None}, tlc result)."""
+    flood_ids = set(flood_ids)
+    res, r = _validate(work, [ln for ln in lines if ln["t"] not in flood_ids], "Trace_Spy.cfg")
+    if flood_ids:
+        res3, r3 = _validate(work, [ln for ln in lines if ln["t"] in flood_ids], "Trace_Spy_flood.cfg")
+        res.update(res3)
+        for k in ("distinct", "generated", "wall_s"):
+            r[k] += r3[k]
+        r["flood_validation_s"] = round(r3["wall_s"], 1)
+    redo = [t for t, bad in res.items() if bad is not None and bad["ev"] != "Timeout" and t not in flood_ids]
     if redo:
         sub = [ln for ln in lines if ln["t"] in set(redo)]
         res2, r2 = _validate(work, sub, "Trace_Spy_full.cfg")
